@@ -1,9 +1,12 @@
 # C05 — chunked/identity selection is a fixed function of version, status, TE and length.
 from common import hx, hdrs
+from convgen import AReq, body_bytes, action_str, respond_str, cv_line
+from cvbase import j
 
 ID = "C05"
 PROPS = "C05"
-EXEC = "rp"
+EXEC = ("rp", "cv")
+NO_SPEC_PREFIXES = ("cv ",)
 EXHAUSTIVE = True
 RULE = ("exhaustive product: version {0.9,1.0,1.1,2.0} x status {100,101,199,200,204,205,304,404,500,999} x "
         "(length,threshold) pairs around the threshold comparison x TE headers (absent, every coding name x q form, "
@@ -84,6 +87,30 @@ def gen(tier, rng):
                         rh = hdrs([("Te", te), ("TE", "identity;q=1, chunked;q=0")])
                         yield ("rp new %d - @%d %s T%d %s %s 0 ~ -" % (st, 3 if ln is None else ln, "-" if ln is None else ln, thr, ver, rh),
                                {"variant": "two-te-headers"})
+    for c in server_cases():
+        yield c
+
+
+def server_cases():
+    """The same decision seen through a real server and Request::respond: the coding does not depend on the
+    request's method (a HEAD request gets the header block a GET would get) — default threshold 32768."""
+    for meth in ("GET", "HEAD", "POST"):
+        for ver in ("1.1", "1.0"):
+            for ln in (0, 5, 32767, 32768, 70000):
+                for declared in (True, False):
+                    for te in (None, "chunked", "identity"):
+                        hs = [("Host", "h")] + ([("TE", te)] if te else [])
+                        r = AReq(method=meth, target="/s%s%d" % (meth, ln), version=ver, headers=hs)
+                        body = body_bytes("s", ln)
+                        extra = "wu=%s ws=200 hd=%s we=closed" % (hx(r.target), "1" if meth == "HEAD" else "0")
+                        yield (cv_line(r.render(), [action_str([], respond_str(200, body, declared))], extra=extra),
+                               {"variant": "server-" + meth})
+
+
+def agree(im, mo):
+    if im.startswith("rp") or " " not in im or not ("[m=" in im or "[m=" in mo):
+        return project(im) == project(mo)
+    return im == mo
 
 
 def project(obs):
@@ -91,11 +118,15 @@ def project(obs):
 
 
 def nontrivial(case, model_obs):
+    if case.startswith("cv "):
+        return True
     f = case.split(" ")
     return f[7] not in ("0.9", "1.0") and int(f[2]) >= 200 and int(f[2]) != 204
 
 
 def neighbours(case, rng):
+    if case.startswith("cv "):
+        return
     f = case.split(" ")
     for st in (199, 200, 204, 205):
         for ver in ("1.0", "1.1"):
